@@ -5,8 +5,9 @@ for each <dir> with patch.diff + demo.xr[/demo.toml] or demo.rs:
 usage: confirm_mut.py <base-commit> <dir>...     writes <dir>/confirm.json ; removes the worktree at the end"""
 import json, os, re, shutil, subprocess, sys
 
-WT = '/tmp/confirm/wt'
-ENV = dict(os.environ, CARGO_NET_OFFLINE='true', CARGO_TARGET_DIR='/tmp/confirm/target')
+BASE = os.environ.get('CONFIRM_DIR', '/tmp/confirm')
+WT = BASE + '/wt'
+ENV = dict(os.environ, CARGO_NET_OFFLINE='true', CARGO_TARGET_DIR=BASE + '/target')
 
 
 def sh(cmd, cwd=WT, timeout=3000):
@@ -47,7 +48,7 @@ def run_demo(d):
 def main():
     base = sys.argv[1]
     dirs = sys.argv[2:]
-    os.makedirs('/tmp/confirm', exist_ok=True)
+    os.makedirs(BASE, exist_ok=True)
     if not os.path.exists(WT):
         subprocess.run(f'git -C /repo worktree add -q --detach {WT} {base}', shell=True, check=True)
     for d in dirs:
@@ -74,7 +75,7 @@ def main():
         json.dump(res, open(os.path.join(d, 'confirm.json'), 'w'), indent=1)
         print(d, 'CONFIRMED' if res['confirmed'] else 'NOT-CONFIRMED', {k: res.get(k) for k in ('demo_passes_without_change', 'applies', 'suite_ok', 'suite_passed', 'demo_fails_with_change')}, flush=True)
     subprocess.run(f'git -C /repo worktree remove --force {WT}', shell=True)
-    shutil.rmtree('/tmp/confirm/target', ignore_errors=True)
+    shutil.rmtree(BASE + '/target', ignore_errors=True)
 
 
 if __name__ == '__main__':
